@@ -67,6 +67,8 @@ type Result struct {
 	Counters   map[string]int
 	LogDigest  string
 	Discarded  bool // the run was a generator reject (not counted as evaluation)
+	// Trouble: the harness disagreed with itself (never a violation: exit 2).
+	Trouble string
 }
 
 func (r *Result) add(v Violation) {
